@@ -162,6 +162,7 @@ let () = iter_lines (fun line ->
         | "sets" -> run_op op (OSetVar (nat_of_int (int_of_string a.(0)), VS (ostr_of_tok a.(1))))
         | "destroy" -> run_op op (ODestroy (nat_of_int (int_of_string a.(0))))
         | "summary" -> Printf.sprintf "summary r=0 |%s" (dump ())
+        | "dirty" -> Printf.sprintf "dirty r=0 |%s" (dump ())        (* stack content: not part of the model's world *)
         | "strtol" ->
           let (v, e) = strtol (bytes_of_tok a.(0)) in
           Printf.sprintf "strtol r=%s %d" (hex_of_z v) (if e then 1 else 0)
